@@ -14,6 +14,12 @@ from dv import hyp, libbuild as L, refcodec as R, strategies as S
 from dv.common import derive_seed, fp
 from dv.evidence import Recorder, finish
 
+import diameter.message            # noqa: E402,F401  (the codec's module state is recorded before its first use)
+import diameter.message.commands   # noqa: E402,F401
+from dv import codecthreads as CT
+
+PRISTINE = CT.ModuleState()
+
 PID = "C02"
 RULE = ("part A: every registered command code (+ run-time registered + unknown codes) x all 256 "
         "flag octets, exhaustively, with boundary header ids; part B: Hypothesis messages of 0..40 "
@@ -399,6 +405,43 @@ def history_ops():
     return st.lists(st.one_of(dec, dec, reg), min_size=2, max_size=10).map(lambda l: [list(x) for x in l])
 
 
+def check_concurrent_searches(D, t, rec: Recorder):
+    """One decoded message, searched by two or three threads at once (the reader thread dispatching it and the
+    application looking into it, say): every search returns what it returns on a message decoded for it alone."""
+    from diameter.message import Message
+    (ms, paths), seed, p = t
+    body = b"".join(S.ref_encode(D, a) for a in ms["avps"])
+    buf = R.enc_message(ms["version"], ms["flags"], ms["code"], ms["app"], ms["hbh"], ms["e2e"], body)
+    if len(buf) > 65535 or len(paths) < 2:
+        return
+    paths = [tuple(tuple(x) for x in pth) for pth in paths][:3]
+
+    def make():
+        msg = Message.from_bytes(buf, plain_msg=True)
+
+        def search(pth):
+            return [(a.code, a.vendor_id, bytes(a.payload)) for a in msg.find_avps(*pth)]
+        return [lambda pth=pth: search(pth) for pth in paths] + [lambda: msg.as_bytes()]
+    try:
+        conc, seq, taken, errs = CT.concurrent_vs_sequential(make, PRISTINE, seed, p, 6)
+    except Exception as e:
+        rec.violation(f"C02/concurrent/raises/{type(e).__name__}", ms, repr(e)[:300])
+        return
+    case = {"concurrent": True, "ms": ms, "paths": [list(map(list, pth)) for pth in paths], "seed": seed, "p": p}
+    for i, (c, s_) in enumerate(zip(conc, seq)):
+        if c != s_:
+            what = f"search {list(paths[i])}" if i < len(paths) else "as_bytes"
+            rec.violation("C02/concurrent/" + ("find-differs" if i < len(paths) else "bytes-differ"), case,
+                          f"thread {i} ({what}): {str(c)[:140]} but alone {str(s_)[:140]}; schedule {taken}")
+            break
+    for e in errs:
+        rec.violation("C02/concurrent/thread-error", case, e[:300])
+    rec.case(fp("conc", hash(buf), tuple(paths), tuple(sorted(taken.items()))) if taken else None,
+             ["concurrent-searches", f"concurrent:paths:{len(paths)}", f"concurrent:switches:{min(len(taken), 6)}",
+              "concurrent:through-a-group" if any(len(pth) > 1 for pth in paths) else "concurrent:top-level-only"],
+             sample=lambda: {"paths": [list(pth) for pth in paths], "schedule": {str(i): c for i, c in taken.items()}})
+
+
 def shard_main(shard, nshards, tier, scale):
     rec = Recorder(PID)
     D = S.Dict()
@@ -437,6 +480,15 @@ def shard_main(shard, nshards, tier, scale):
             ms, paths = mp
             check_message(D, ms, rec, paths=paths)
         hyp.run_given(message_and_paths(D, codes), fbody, n_find, derive_seed(PID, "find", shard), rec=rec)
+        # concurrent searches of one message (the preemption points slow the codec down: towards the end)
+        info = CT.install_points()
+        if shard == 0:
+            rec.extra["concurrent_preemption_functions"] = len(info)
+        cstrat = st.tuples(message_and_paths(D, codes), st.integers(0, 1 << 30), st.sampled_from([0.02, 0.08, 0.3]))
+        hyp.run_given(cstrat, lambda t: check_concurrent_searches(D, t, rec), int((6000 if thorough else 400) * scale) or 5,
+                      derive_seed(PID, "concurrent", shard), rec=rec)
+        from dv import sched as _sched
+        _sched.clear()
     finally:
         unregister(rt_codes)
     # part D: histories of decode / register / replace (run last: it touches the registry)
@@ -451,7 +503,7 @@ def run(tier, scale=1.0):
     rec = Recorder(PID)
     for d in hyp.pool_run(shard_main, (tier, scale)):
         rec.merge(d)
-    required = {"find:after-alt-list-search": 1, "cmd:typed-cmd": 1, "cmd:untyped-cmd": 1, "cmd:unknown-code": 1,
+    required = {"concurrent-searches": 1, "concurrent:through-a-group": 1, "concurrent:switches:6": 1, "find:after-alt-list-search": 1, "cmd:typed-cmd": 1, "cmd:untyped-cmd": 1, "cmd:unknown-code": 1,
                 "find:deep-hit": 1, "find:vendor-miss": 1, "find:len4": 1, "depth:6": 1,
                 "navps:40+": 1, "history:register-then-decode": 1}
     return finish(rec, tier=tier, level="exploration", rule=RULE, assumptions=ASSUME, t0=t0,
